@@ -520,6 +520,10 @@ def scan_assumptions(text):
 def run_verus(scr, unit, seed=0):
     mod = load_verus_module(unit.module)
     x = Extractor(scr)
+    # the prelude keeps a per-unit registry (field-typing axioms for the broadcast group); a build that was abandoned half-way
+    # (lost anchor) must not leak its entries into the next unit of the same run
+    import prelude as _prelude
+    del _prelude._field_axioms[:]
     text = mod.build(x)
     path = os.path.join(scr.dir, "%s.rs" % unit.name)
     open(path, "w").write(text)
